@@ -108,7 +108,7 @@ impl Property for P {
     fn cases(tier: Tier) -> u64 {
         match tier {
             Tier::Quick => 15_000,
-            Tier::Thorough => 100_000,
+            Tier::Thorough => 400_000,
         }
     }
     fn strategy(_tier: Tier) -> BoxedStrategy<MrCase> {
